@@ -86,3 +86,13 @@ class PairD(Config):
 
     a: Param[str]
     b: Param[str] = "d"
+
+
+class TopExt(Config):
+    __xpmid__ = "xv.top"
+
+    n1: Param[NodeExt]
+    n2: Param[Optional[NodeExt]]
+    leaf: Param[Optional[LeafExt]]
+    t: Param[int] = 5
+    fresh: Param[Optional[LeafExt]]
